@@ -1,7 +1,17 @@
 use crate::engine::{Entry, entry};
 
 pub mod c32;
+pub mod server;
 
 pub fn registry() -> Vec<Entry> {
-    vec![entry::<c32::C32>(false)]
+    vec![
+        entry::<server::C15>(false),
+        entry::<server::C16>(false),
+        entry::<server::C17>(false),
+        entry::<server::C18>(false),
+        entry::<server::C19>(false),
+        entry::<server::C21>(false),
+        entry::<server::C22>(false),
+        entry::<c32::C32>(false),
+    ]
 }
